@@ -551,29 +551,10 @@ func init() {
 	reg("github.com/pkg/errors.Errorf", func(m *Machine, fr *frame, a []value) value {
 		return m.newError(nativeSprintf(a[0].(string), a[1].([]value)))
 	})
-	reg("github.com/pkg/errors.Wrap", func(m *Machine, fr *frame, a []value) value {
-		if a[0].(iface).t == nil {
-			return iface{}
-		}
-		return m.newError(a[1].(string) + ": <wrapped>")
-	})
-	reg("github.com/pkg/errors.Wrapf", func(m *Machine, fr *frame, a []value) value {
-		if a[0].(iface).t == nil {
-			return iface{}
-		}
-		return m.newError(nativeSprintf(a[1].(string), a[2].([]value)) + ": <wrapped>")
-	})
 	reg("github.com/pkg/errors.WithStack", func(m *Machine, fr *frame, a []value) value { return a[0] })
-	reg("github.com/pkg/errors.Cause", func(m *Machine, fr *frame, a []value) value { return a[0] })
-	reg("github.com/unixpickle/essentials.AddCtx", func(m *Machine, fr *frame, a []value) value {
-		if a[1].(iface).t == nil {
-			return iface{}
-		}
-		return a[1]
-	})
-	reg("github.com/unixpickle/essentials.AddCtxTo", func(m *Machine, fr *frame, a []value) value { return nil })
 
 	registerIOIntrinsics(reg, used)
+	registerStrIntrinsics(reg, used)
 }
 
 // ---------------------------------------------------------------------
